@@ -67,8 +67,11 @@ func (g *scriptGetter) Head(ctx context.Context, opts ...header.HeadOption[*vhdr
 	}
 	return g.chain[len(g.chain)-1], nil
 }
-func (g *scriptGetter) Get(_ context.Context, hash header.Hash) (*vhdr.Header, error) {
+func (g *scriptGetter) Get(ctx context.Context, hash header.Hash) (*vhdr.Header, error) {
 	g.add("G")
+	if err := ctx.Err(); err != nil { // like every real getter (p2p.Exchange selects on ctx.Done()), a dead context gets nothing
+		return nil, err
+	}
 	for _, h := range g.chain {
 		if string(h.Hash()) == string(hash) {
 			return h, nil
@@ -76,8 +79,11 @@ func (g *scriptGetter) Get(_ context.Context, hash header.Hash) (*vhdr.Header, e
 	}
 	return nil, header.ErrNotFound
 }
-func (g *scriptGetter) GetByHeight(_ context.Context, h uint64) (*vhdr.Header, error) {
+func (g *scriptGetter) GetByHeight(ctx context.Context, h uint64) (*vhdr.Header, error) {
 	g.add(fmt.Sprintf("H:%d", h))
+	if err := ctx.Err(); err != nil {
+		return nil, err
+	}
 	g.mu.Lock()
 	g.nH++
 	over := g.budget > 0 && g.nH > g.budget
@@ -99,8 +105,11 @@ func (g *scriptGetter) GetByHeight(_ context.Context, h uint64) (*vhdr.Header, e
 	}
 	return g.chain[h-1], nil
 }
-func (g *scriptGetter) GetRangeByHeight(_ context.Context, from *vhdr.Header, to uint64) ([]*vhdr.Header, error) {
+func (g *scriptGetter) GetRangeByHeight(ctx context.Context, from *vhdr.Header, to uint64) ([]*vhdr.Header, error) {
 	g.add(fmt.Sprintf("R:%d-%d", from.H, to))
+	if err := ctx.Err(); err != nil {
+		return nil, err
+	}
 	if g.rangeFn != nil {
 		return g.rangeFn(from, to)
 	}
